@@ -877,7 +877,7 @@ def default_value(ex, st, ty):
     raise MirError('default_value for ' + ty)
 
 
-@model(r'^<.+ as Default>::default$')
+@model(r'^<.+ as (std::default::|core::default::)?Default>::default$')
 def m_default(ctx):
     if ctx.ex.resolve_fn(ctx.callee, 0):
         return None
